@@ -815,14 +815,47 @@ pub(crate) fn check_if_response_is_matched(
             let first_last_n_header_number = headers[reorg_count].header().number();
             let last_last_n_header_number = headers[headers.len() - 1].header().number();
             let last_number = last_header.header().number();
-            if first_last_n_header_number != start_number
-                || last_last_n_header_number + 1 != last_number
-            {
+            let has_all_blocks = first_last_n_header_number == start_number
+                && last_last_n_header_number + 1 == last_number;
+            let is_sampling_required =
+                last_number.saturating_sub(start_number) > last_n_blocks as u64;
+            if has_all_blocks {
+                // All new blocks are in the response.
+            } else if !is_sampling_required {
                 let errmsg = format!(
-                "there should be all blocks of [{}, {}) since no sampled blocks, but got [{}, {}]",
-                start_number, last_number, first_last_n_header_number, last_last_n_header_number
-            );
+                    "there should be all blocks of [{}, {}) since no sampled blocks, but got [{}, {}]",
+                    start_number, last_number, first_last_n_header_number, last_last_n_header_number
+                );
                 return Err(StatusCode::MalformedProtocolMessage.with_context(errmsg));
+            } else {
+                // More than last n blocks are missing, but no block is sampled: every requested
+                // difficulty has to be in the last n blocks, which have to be complete.
+                let difficulty_boundary: U256 = prev_request.difficulty_boundary().unpack();
+                let parent_total_difficulty: U256 = headers[reorg_count]
+                    .parent_chain_root()
+                    .total_difficulty()
+                    .unpack();
+                if last_n_count != last_n_blocks || parent_total_difficulty >= difficulty_boundary {
+                    let errmsg = format!(
+                        "there should be the last {} blocks since the first block which reaches \
+                        the difficulty boundary ({:#x}), but got [{}, {}]",
+                        last_n_blocks,
+                        difficulty_boundary,
+                        first_last_n_header_number,
+                        last_last_n_header_number
+                    );
+                    return Err(StatusCode::MalformedProtocolMessage.with_context(errmsg));
+                }
+                if let Some(difficulty) = prev_request.difficulties().into_iter().next() {
+                    let difficulty: U256 = difficulty.unpack();
+                    if difficulty <= parent_total_difficulty {
+                        let errmsg = format!(
+                            "the difficulty ({:#x}) is before the last n blocks but no block is sampled",
+                            difficulty
+                        );
+                        return Err(StatusCode::InvalidSamples.with_context(errmsg));
+                    }
+                }
             }
         }
     } else {
